@@ -927,8 +927,8 @@ func main() {
 				tag, fn := fnFor(off, vi)
 				l := layout{FnTag: tag, Fn: fn, Fields: []fieldSpec{v.at(off, embedded)}}
 				alphabet := alphabets[v.Kind]
-				if !embedded && (off == 2 || off+v.Kind.Width() == 64) {
-					alphabet = deepAlphabets[v.Kind] // full small domains at the first and the last offset
+				if r.Thorough() || (!embedded && (off == 2 || off+v.Kind.Width() == 64)) {
+					alphabet = deepAlphabets[v.Kind] // full small domains: at the first and the last offset (quick), everywhere (thorough)
 				}
 				tuples := [][]spec.KV{}
 				for _, x := range alphabet {
@@ -1171,7 +1171,7 @@ func parent(r *vk.Run) {
 	if r.Thorough() {
 		third = "every ordered triple of the 21 kind variants, adjacent, at offsets 2, 30 and end-aligned x 4 embedding patterns (none, middle, outer two, all) x (baseline tuple + each field over its small alphabet)"
 	}
-	r.Rule("struct types generated with reflect.StructOf: (1) every single-field layout = 20 kinds (17 + pointer variants of Date, DateTime, HHmm; the fixed-value byte in 10 tag spellings) x every offset 2..63 at which the kind fits x plain/embedded x the kind's value alphabet (boundaries, walking bits, byte-distinct patterns, all 256 bytes; every HH:mm 00:00..24:00 and every IPv4 octet value at the first and last offset); (2) every two-field layout = every ordered pair of 21 kind variants (19 kinds + fixed byte written in decimal and in hex) x every offset of the first field x second field adjacent and right-aligned to byte 63 x 4 embedding patterns (none, second, first, both) x the cross product of the two small alphabets; (3) three-field layouts: " + third + "; (4) every function code 0..255 x every decimal/0x/0X/upper-case spelling x all 255 wrong codes on decode; (5) every fixed value 0..255 x every spelling at offsets 2, 33, 63 plain and embedded x all 255 wrong bytes, plus five values in every spelling at every other offset; (6) SOM tags 0x17/0x19 in every spelling (emission). A case is one (layout, value tuple); cases are pairwise distinct by construction (alphabets are duplicate-free, coinciding adjacent/right-aligned placements are generated once, fixed-value layouts of (5) that repeat a tag spelling of (1) are not counted); non-trivial = the reference message has at least one non-zero byte after the function code")
+	r.Rule("struct types generated with reflect.StructOf: (1) every single-field layout = 20 kinds (17 + pointer variants of Date, DateTime, HHmm; the fixed-value byte in 10 tag spellings) x every offset 2..63 at which the kind fits x plain/embedded x the kind's value alphabet (boundaries, walking bits, byte-distinct patterns, all 256 bytes; every HH:mm 00:00..24:00 and every IPv4 octet value at the first and last offset in the quick tier, at every offset plain and embedded in the thorough tier); (2) every two-field layout = every ordered pair of 21 kind variants (19 kinds + fixed byte written in decimal and in hex) x every offset of the first field x second field adjacent and right-aligned to byte 63 x 4 embedding patterns (none, second, first, both) x the cross product of the two small alphabets; (3) three-field layouts: " + third + "; (4) every function code 0..255 x every decimal/0x/0X/upper-case spelling x all 255 wrong codes on decode; (5) every fixed value 0..255 x every spelling at offsets 2, 33, 63 plain and embedded x all 255 wrong bytes, plus five values in every spelling at every other offset; (6) SOM tags 0x17/0x19 in every spelling (emission). A case is one (layout, value tuple); cases are pairwise distinct by construction (alphabets are duplicate-free, coinciding adjacent/right-aligned placements are generated once, fixed-value layouts of (5) that repeat a tag spelling of (1) are not counted); non-trivial = the reference message has at least one non-zero byte after the function code")
 	r.Assume("reference encoders spec.KindEncode are written by hand from the protocol; reflect.StructOf types behave like declared struct types for the codec (same reflect API)")
 	r.Assume("time.Local = UTC (zone behaviour of dates belongs to C13/C05)")
 	r.Assume("function codes and tag spellings of the field layouts are assigned by a fixed arithmetic rule over (offset, kind); their full product is enumerated in family (4)")
